@@ -18,6 +18,15 @@ type rpcWeights struct {
 	progPct                                                                           int // percent of calls asking receive_progress
 	exactTimes                                                                        bool
 	hotPct                                                                            int // percent of REGISTERs aimed at one shared 'hot' procedure
+	pubsub                                                                            int // weight of pub/sub ops (subscribe, unsubscribe, publish, testament)
+	noFinalAdvance                                                                    bool
+	nSteps                                                                            int // 0: 20..60
+}
+
+// scriptStep is one recorded step of a generated script (for replays with injected faults).
+type scriptStep struct {
+	Join *PuppetSetup
+	Op   *model.Op
 }
 
 var procPool = []string{"a", "a.b", "a.b.c", "a.b2", "a.x.c", "b", "a.b.c.d", "b.b.c"}
@@ -77,6 +86,7 @@ func hasFeature(ps PuppetSetup, role, feat string) bool {
 
 type rpcRun struct {
 	run    *Runner
+	steps  []scriptStep
 	script []string
 	setups []PuppetSetup
 	realm  RealmSetup
@@ -109,11 +119,15 @@ func runRPCScript(c *Case, w rpcWeights, trackMeta bool) *rpcRun {
 	rr.run = run
 	run.Mon.CheckDisclose = true
 	run.Mon.TrackMeta = trackMeta
-	for _, ps := range rr.setups {
+	for i := range rr.setups {
+		ps := rr.setups[i]
+		rr.steps = append(rr.steps, scriptStep{Join: &ps})
 		run.Join(ps)
 	}
 	exec := func(op model.Op) {
 		rr.script = append(rr.script, op.String())
+		o := op
+		rr.steps = append(rr.steps, scriptStep{Op: &o})
 		run.Exec(op)
 	}
 	if trackMeta {
@@ -121,8 +135,12 @@ func runRPCScript(c *Case, w rpcWeights, trackMeta bool) *rpcRun {
 	}
 	hotInvoke := pick(r, []string{"first", "last", "roundrobin", "roundrobin", "random"})
 	hotURI, hotMatch := pick(r, []string{"a.b", "a", "b"}), pick(r, []string{"", "prefix"})
-	total := w.register + w.unregister + w.call + w.yield + w.inverr + w.cancel + w.advance + w.leave + w.join + w.foreign
+	total := w.register + w.unregister + w.call + w.yield + w.inverr + w.cancel + w.advance + w.leave + w.join + w.foreign + w.pubsub
+	var subsHeld [][3]string
 	nSteps := 20 + r.IntN(41)
+	if w.nSteps > 0 {
+		nSteps = w.nSteps/2 + r.IntN(w.nSteps)
+	}
 	type closedCall struct {
 		caller, callee int
 		req, inv       uint64
@@ -148,7 +166,7 @@ func runRPCScript(c *Case, w rpcWeights, trackMeta bool) *rpcRun {
 				n string
 				w int
 			}{{"register", w.register}, {"unregister", w.unregister}, {"call", w.call}, {"yield", w.yield}, {"inverr", w.inverr},
-				{"cancel", w.cancel}, {"advance", w.advance}, {"leave", w.leave}, {"join", w.join}, {"foreign", w.foreign}} {
+				{"cancel", w.cancel}, {"advance", w.advance}, {"leave", w.leave}, {"join", w.join}, {"foreign", w.foreign}, {"pubsub", w.pubsub}} {
 				if x < kv.w {
 					return kv.n
 				}
@@ -352,7 +370,30 @@ func runRPCScript(c *Case, w rpcWeights, trackMeta bool) *rpcRun {
 				ps.Features = randomFeatures(r)
 				rr.setups = append(rr.setups, ps)
 				rr.script = append(rr.script, "join "+ps.String())
+				rr.steps = append(rr.steps, scriptStep{Join: &ps})
 				run.Join(ps)
+			}
+		case "pubsub":
+			switch y := r.IntN(10); {
+			case y < 4:
+				uri, m := g.topicAndMatch(5)
+				exec(model.Op{Kind: model.OpSubscribe, P: p, Req: g.nextReq(p), URI: uri, Opts: matchOpts(m)})
+				subsHeld = append(subsHeld, [3]string{fmt.Sprint(p), uri, model.NormMatch(m)})
+			case y < 5 && len(subsHeld) > 0:
+				h := pick(r, subsHeld)
+				exec(model.Op{Kind: model.OpUnsubscribe, P: p, Req: g.nextReq(p), Target: model.Ref{Kind: "sub", Topic: h[1], Match: h[2]}})
+			case y < 9:
+				args, kw := g.payload()
+				exec(model.Op{Kind: model.OpPublish, P: p, Req: g.nextReq(p), URI: pick(r, poolTopics), Opts: genPublishOpts(g, len(run.W.Puppets), rr.realm.AllowDisclose), Args: args, Kw: kw})
+			default:
+				args, kw := g.payload()
+				if args == nil {
+					args = []any{}
+				}
+				if kw == nil {
+					kw = map[string]any{}
+				}
+				exec(model.Op{Kind: model.OpMetaCall, P: p, Req: g.nextReq(p), URI: "wamp.session.add_testament", Args: []any{pick(r, poolTopics), args, kw}, Kw: map[string]any{}})
 			}
 		case "foreign":
 			// UNREGISTER / YIELD with ids that exist but belong to others, or unknown ids
@@ -367,7 +408,9 @@ func runRPCScript(c *Case, w rpcWeights, trackMeta bool) *rpcRun {
 		}
 	}
 	// drain: let every armed router timer fire and check the resulting timeouts
-	exec(model.Op{Kind: model.OpAdvance, D: 3 * time.Hour})
+	if !w.noFinalAdvance {
+		exec(model.Op{Kind: model.OpAdvance, D: 3 * time.Hour})
+	}
 	c.Add("steps", float64(run.Steps))
 	c.Add("calls_closed_non_happy", float64(run.Mon.NonHappyCloses))
 	return rr
